@@ -65,3 +65,15 @@ mod service;
 
 #[cfg(feature = "server")]
 pub mod server;
+
+/// Verification hooks (feature `verif-hooks`): not part of the public API.
+#[cfg(feature = "verif-hooks")]
+#[allow(missing_docs, unreachable_pub, clippy::pedantic)]
+pub mod verif_hooks {
+    pub mod rtu {
+        pub use crate::codec::rtu::verif_hooks::*;
+    }
+    pub mod tcp {
+        pub use crate::codec::tcp::verif_hooks::*;
+    }
+}
